@@ -51,6 +51,7 @@ type JobResult struct {
 	LIAQueries  int
 	LIATime     time.Duration
 	PO          []POOutcome
+	KnownHits   []string
 	Wall        time.Duration
 	Err         string
 }
@@ -157,6 +158,7 @@ func runJob(ld *Loaded, base *sym.State, j Job, opt Options) JobResult {
 		r.LoopBound = j.H.Loop
 	}
 	r.Prop = opt.Prop
+	r.BlockIsViolation = j.H.NoBlock && j.H.Prop == opt.Prop
 	if j.H.NoPanicCheck || j.H.Prop != opt.Prop {
 		r.PanicIsViolation = false
 	}
@@ -215,11 +217,15 @@ func runJob(ld *Loaded, base *sym.State, j Job, opt Options) JobResult {
 					r.UnknownObl++
 					r.Notes = append(r.Notes, fmt.Sprintf("PO scenario %d: query %s unknown/timeout", out.Scenario, q.Name))
 				case smt.Sat:
-					lbl := "po"
-					if len(q.Failed) > 0 {
-						lbl = strings.Fields(q.Failed[0])[0]
+					if len(q.FailedEv) == 0 {
+						r.Violations = append(r.Violations, sym.Violation{Label: "po", Msg: strings.Join(q.Failed, "; "), Pos: q.Name, History: poTraceText(q)})
 					}
-					r.Violations = append(r.Violations, sym.Violation{Label: lbl, Msg: strings.Join(q.Failed, "; "), Pos: q.Name, History: poTraceText(q), Stack: strings.Join(q.Failed, "; ")})
+					for _, e := range q.FailedEv {
+						r.Violations = append(r.Violations, sym.Violation{Label: e.Label, Msg: e.Stack, Pos: q.Name + " " + e.Pos, History: poTraceText(q), Stack: e.Stack})
+					}
+				}
+				for _, kw := range q.KnownHit {
+					res.KnownHits = append(res.KnownHits, kw)
 				}
 				r.Samples = append(r.Samples, fmt.Sprintf("PO scenario %d query %s: %s by %s in %.1fs over %d events", out.Scenario, q.Name, q.Res, q.Solver, q.Time.Seconds(), q.Events))
 			}
@@ -439,6 +445,12 @@ func RunProperty(opt Options) int {
 		}
 		if len(samples) < 8 && len(res.Samples) > 0 {
 			samples = append(samples, map[string]interface{}{"harness": name, "paths": res.Paths, "obligations": res.Samples})
+		}
+		for _, kw := range res.KnownHits {
+			if !knownPrinted[kw] {
+				knownPrinted[kw] = true
+				fmt.Printf("KNOWN-FINDING: property=%s %s\n", opt.Prop, kw)
+			}
 		}
 		// violations: dedupe by label+pos
 		seen := map[string]bool{}
